@@ -227,6 +227,134 @@ Section Framing.
       rewrite H1. rewrite (IH fuel r1 Hne Hall' Hsafe1 Hs1); [reflexivity|cbn in Hf; lia].
   Qed.
 
+  (* ---------------- a stream that ends inside a frame ---------------- *)
+
+  Lemma whole_le : forall shape frames t, shape <> [] -> Forall (conforms shape) frames ->
+    fst (whole t frames) <= t /\ fst (whole t frames) <= length (concat (map (@concat N) frames)).
+  Proof.
+    intros shape frames t Hne Hall. revert t. induction Hall as [|fr frames Hfr Hall IH]; intros t.
+    - cbn. lia.
+    - cbn [whole map concat]. rewrite app_length.
+      pose proof (conforms_nonempty shape fr Hne Hfr) as Hn.
+      assert (1 <= length (concat fr)) by (destruct (concat fr); [congruence|cbn; lia]).
+      destruct (length (concat fr) <=? t) eqn:El.
+      + apply Nat.leb_le in El. specialize (IH (t - length (concat fr))).
+        destruct (whole (t - length (concat fr)) frames) as [n b]. cbn [fst] in *. lia.
+      + cbn [fst]. lia.
+  Qed.
+
+  Lemma read_value_cut : forall q fuel acc r,
+    stream r = q -> length q < fuel ->
+    (forall q1 q2, q = q1 ++ q2 -> q1 <> [] -> complete (acc ++ q1) = false) ->
+    read_value complete fuel acc r = inr EEof.
+  Proof.
+    induction q as [|b q IH]; intros fuel acc r Hs Hf Hp.
+    - destruct fuel; [lia|]. cbn [read_value]. now rewrite (next_byte_nil r Hs).
+    - destruct fuel; [cbn in Hf; lia|]. cbn [read_value].
+      destruct (next_byte_cons r b q Hs) as (r1 & Hn & Hs1 & _). rewrite Hn.
+      assert (Hc : complete (acc ++ [b]) = false).
+      { apply (Hp [b] q); [reflexivity|discriminate]. }
+      rewrite Hc. apply IH; [exact Hs1|cbn in Hf; lia|].
+      intros q1 q2 Hq Hq1. rewrite <- app_assoc. apply (Hp (b :: q1) q2); [cbn; now rewrite Hq|discriminate].
+  Qed.
+
+  Lemma read_slot_cut : forall s u q tl_ r,
+    unit_ok s u -> safe r -> u = q ++ tl_ -> tl_ <> [] -> stream r = q ->
+    read_slot complete rawmark s r = inr EEof.
+  Proof.
+    intros s u q tl_ r Hu Hsafe Hq Htl Hs. destruct s as [m|].
+    - cbn in Hu. subst u. destruct q as [|a q].
+      + unfold read_slot. destruct Hsafe as [Hrm|[U1 U2]].
+        * rewrite Hrm. now rewrite (next_byte_nil r Hs).
+        * destruct rawmark; [now rewrite (raw_byte_nil r U2 Hs)|now rewrite (next_byte_nil r Hs)].
+      + exfalso. destruct q; cbn in Hq; [|destruct q; discriminate].
+        injection Hq as _ Ht. congruence.
+    - cbn in Hu. destruct Hu as (Hne & Hc & Hp). unfold read_slot.
+      apply read_value_cut with (q := q); [exact Hs| |].
+      + unfold remaining. assert (H : length (stream r) = length q) by now rewrite Hs.
+        unfold stream in H. rewrite app_length in H. lia.
+      + intros q1 q2 Hq12 Hq1. cbn [app]. apply (Hp q1 (q2 ++ tl_)).
+        * rewrite Hq, Hq12. now rewrite app_assoc.
+        * exact Hq1.
+        * intro H. apply app_eq_nil in H. destruct H. congruence.
+  Qed.
+
+  Lemma split_prefix : forall (u rest q tl_ : list N),
+    u ++ rest = q ++ tl_ ->
+    (exists q', q = u ++ q' /\ rest = q' ++ tl_) \/ (exists u2, u2 <> [] /\ u = q ++ u2).
+  Proof.
+    induction u as [|a u IH]; intros rest q tl_ H.
+    - left. exists q. split; [reflexivity|exact H].
+    - destruct q as [|b q].
+      + right. exists (a :: u). split; [discriminate|reflexivity].
+      + cbn in H. injection H as Hab H. subst b.
+        destruct (IH rest q tl_ H) as [(q' & H1 & H2)|(u2 & H1 & H2)].
+        * left. exists q'. split; [cbn; now rewrite H1|exact H2].
+        * right. exists u2. split; [exact H1|cbn; now rewrite H2].
+  Qed.
+
+  Lemma read_frame_cut : forall shape fr q tl_ r,
+    conforms shape fr -> safe r -> concat fr = q ++ tl_ -> tl_ <> [] -> stream r = q ->
+    read_frame complete rawmark shape r = inr EEof.
+  Proof.
+    intros shape fr q tl_ r Hc. revert q tl_ r.
+    induction Hc as [|s u shape fr Hu Hc IH]; intros q tl_ r Hsafe Hq Htl Hs.
+    - cbn in Hq. symmetry in Hq. apply app_eq_nil in Hq. destruct Hq. congruence.
+    - cbn [concat] in Hq. cbn [read_frame].
+      destruct (split_prefix u (concat fr) q tl_ Hq) as [(q' & H1 & H2)|(u2 & H1 & H2)].
+      + assert (Hs' : stream r = u ++ q') by congruence.
+        destruct (read_slot_spec s u r q' Hu Hsafe Hs') as (r1 & Hr & Hs1 & _ & Hsafe1).
+        rewrite Hr. rewrite (IH q' tl_ r1 Hsafe1 H2 Htl Hs1). reflexivity.
+      + rewrite (read_slot_cut s u q u2 r Hu Hsafe H2 H1 Hs). reflexivity.
+  Qed.
+
+  Lemma firstn_app_le : forall (a b : list N) t, length a <= t ->
+    firstn t (a ++ b) = a ++ firstn (t - length a) b.
+  Proof.
+    intros a b t H. rewrite firstn_app. rewrite firstn_all2 by exact H. reflexivity.
+  Qed.
+
+  Lemma read_frames_cut : forall shape frames t fuel r,
+    shape <> [] -> Forall (conforms shape) frames -> safe r ->
+    stream r = firstn t (concat (map (@concat N) frames)) -> fst (whole t frames) < fuel ->
+    read_frames complete rawmark fuel shape r
+    = (firstn (fst (whole t frames)) frames, if snd (whole t frames) then None else Some EEof).
+  Proof.
+    intros shape frames. induction frames as [|fr frames IH]; intros t fuel r Hne Hall Hsafe Hs Hf.
+    - destruct fuel; [lia|]. cbn [read_frames whole fst snd firstn]. cbn in Hs. rewrite firstn_nil in Hs.
+      apply at_end_stream in Hs. now rewrite Hs.
+    - destruct fuel; [lia|]. inversion Hall as [|? ? Hfr Hall']; subst.
+      cbn [map concat] in Hs. cbn [whole] in Hf |- *.
+      destruct (length (concat fr) <=? t) eqn:El.
+      + apply Nat.leb_le in El. rewrite firstn_app_le in Hs by exact El.
+        cbn [read_frames].
+        assert (Hend : at_end r = false).
+        { destruct (at_end r) eqn:E; [|reflexivity]. apply at_end_stream in E.
+          rewrite E in Hs. symmetry in Hs. apply app_eq_nil in Hs. destruct Hs as [Hs _].
+          exfalso. eapply conforms_nonempty; eauto. }
+        rewrite Hend.
+        destruct (read_frame_spec shape fr r _ Hfr Hsafe Hs) as (r1 & H1 & Hs1 & Hr1 & Hsafe1).
+        rewrite H1.
+        destruct (whole (t - length (concat fr)) frames) as [n b] eqn:Ew. cbn [fst snd] in Hf |- *.
+        rewrite (IH (t - length (concat fr)) fuel r1 Hne Hall' Hsafe1 Hs1) by (rewrite Ew; cbn [fst]; lia).
+        rewrite Ew. reflexivity.
+      + apply Nat.leb_gt in El. cbn [fst snd firstn read_frames].
+        rewrite firstn_app in Hs. replace (t - length (concat fr)) with 0 in Hs by lia.
+        cbn [firstn] in Hs. rewrite app_nil_r in Hs.
+        destruct t as [|t].
+        * cbn in Hs. apply at_end_stream in Hs. rewrite Hs. reflexivity.
+        * assert (Hend : at_end r = false).
+          { destruct (at_end r) eqn:E; [|reflexivity]. apply at_end_stream in E. rewrite E in Hs.
+            destruct (concat fr); [cbn in El; lia|discriminate]. }
+          rewrite Hend.
+          rewrite (read_frame_cut shape fr (firstn (S t) (concat fr)) (skipn (S t) (concat fr)) r Hfr Hsafe).
+          -- reflexivity.
+          -- symmetry. apply firstn_skipn.
+          -- intro H. assert (L : length (skipn (S t) (concat fr)) = 0) by now rewrite H.
+             rewrite skipn_length in L. lia.
+          -- exact Hs.
+  Qed.
+
   Lemma frames_len : forall shape frames, shape <> [] -> Forall (conforms shape) frames ->
     length frames <= length (concat (map (@concat N) frames)).
   Proof.
@@ -289,6 +417,20 @@ Proof.
   rewrite write_frames_fifo. rewrite map_map.
   rewrite (map_ext (fun x => concat (encodes_of k x)) (@concat N) (encodes_of_concat k)).
   apply read_all_spec; auto. apply shape_of_nonempty.
+Qed.
+
+Lemma truncated_lemma : forall complete k rc sc frames t,
+  Forall (conforms complete (shape_of k)) frames ->
+  read_all complete (rawmark_of k) (shape_of k) rc sc
+    (firstn t (concat (map (@concat N) frames)))
+  = (firstn (fst (whole t frames)) frames, if snd (whole t frames) then None else Some EEof).
+Proof.
+  intros complete k rc sc frames t Hall. unfold read_all.
+  apply read_frames_cut; auto.
+  - apply shape_of_nonempty.
+  - left. destruct k; reflexivity.
+  - rewrite firstn_length.
+    pose proof (whole_le complete (shape_of k) frames t (shape_of_nonempty k) Hall). lia.
 Qed.
 
 (* the present code: both codecs read everything through the Decoder *)
